@@ -15,9 +15,9 @@ MCSP == { <<"d", "dx">> }
 E(n,k,m,t,c,tg) == [name |-> n, k |-> k, m |-> m, t |-> t, c |-> c, tgt |-> tg]
 
 \* --- safety alphabet (C01 / C04 / C12): hostile names and targets ---
-NamesQ == { <<"a">>, <<"s","a">>, <<"s","u">>, <<"","a">>, <<"..","dx","f">>, <<"..","v">>, <<"s","..","a">>, <<"x","..","a","f">> }
+NamesQ == { <<"a">>, <<"a","">>, <<"..n">>, <<"s","a">>, <<"s","u">>, <<"","a">>, <<"..","dx","f">>, <<"s","..","a">>, <<"x","..","a","f">> }
 NamesT == NamesQ \cup { <<"b">>, <<"s","">>, <<".","b">>, <<"b","c">>, <<"">>, <<"","">>, <<".">>, <<"s","","a">>, <<"..","d","a">> }
-TargetsQ == { <<"b">>, <<"..">>, <<"..","d","a">>, <<"..","dx">>, <<"s","u","..","v">>, <<"s","u","..","w">>, <<"","A","v">>, <<"s">>, <<"","A","d","a">>, <<"..","..","w">>, <<"a","..","..","w">> }
+TargetsQ == { <<"b">>, <<"..">>, <<"..","d","a">>, <<"..","dx">>, <<"s","u","..","v">>, <<"s","u","..","w">>, <<"","A","v">>, <<"","A","d","a">>, <<"a","..","..","w">> }
 TargetsT == TargetsQ \cup { <<"..","..","v">>, <<"..","a">>, <<"s","u","..","w">>, <<".">>, <<"","A","dx">> , <<"u","..","..","v">> }
 
 Alpha(Names, Targets) ==
@@ -29,7 +29,7 @@ AlphaQuick == Alpha(NamesQ, TargetsQ)
 AlphaThorough == Alpha(NamesT, TargetsT)
 
 \* --- fidelity alphabet (C15): a small path universe, well-formed spellings ---
-NamesF == { <<"a">>, <<"b">>, <<"s","">>, <<"s">>, <<"s","a">>, <<"s","t","">>, <<"s","t","a">>, <<"","a">>, <<".","s","a">>, <<".","b">> }
+NamesF == { <<"a">>, <<"b">>, <<"..n">>, <<"s","..n">>, <<"s","">>, <<"s">>, <<"s","a">>, <<"s","t","">>, <<"s","t","a">>, <<"","a">>, <<".","s","a">>, <<".","b">> }
 TargetsF == { <<"a">>, <<"s","a">>, <<"..","a">>, <<"t","a">>, <<"nowhere">> }
 AlphaFidelity ==
    { E(n, "f", m, t, c, <<>>) : n \in NamesF \ {<<"s","">>, <<"s","t","">>, <<"s">>}, m \in {644, 400}, t \in {2}, c \in {0, 1, 2} }
@@ -37,7 +37,7 @@ AlphaFidelity ==
    \cup { E(n, "l", 777, 4, 0, tg) : n \in {<<"b">>, <<"s","a">>, <<"s","l">>}, tg \in TargetsF }
    \cup { E(<<"pax_global_header">>, "g", 644, 2, 0, <<>>), E(<<"a">>, "p", 644, 2, 0, <<>>), E(<<"b">>, "h", 644, 2, 0, <<"a">>) }
 AlphaFidelityQ ==
-   { E(n, "f", m, 2, c, <<>>) : n \in { <<"a">>, <<"s","a">>, <<"","a">>, <<".","s","a">>, <<"s","t","a">> }, m \in {644, 400}, c \in {0, 2} }
+   { E(n, "f", m, 2, c, <<>>) : n \in { <<"a">>, <<"s","a">>, <<"","a">>, <<".","s","a">>, <<"s","t","a">>, <<"..n">> }, m \in {644, 400}, c \in {0, 2} }
    \cup { E(n, "d", m, 3, 0, <<>>) : n \in {<<"s","">>, <<"s">>, <<"s","t","">>}, m \in {755, 500} }
    \cup { E(<<"s","">>, "d", 700, 5, 0, <<>>) }
    \cup { E(n, "l", 777, 4, 0, tg) : n \in {<<"b">>, <<"s","l">>}, tg \in { <<"a">>, <<"..","a">>, <<"nowhere">> } }
